@@ -166,6 +166,9 @@ pub struct World {
     pub inj: BTreeMap<(u32, usize), Vec<String>>,
     /// after-injections (also lowered block-entry code) per (function slot, original instruction index)
     pub inj_after: BTreeMap<(u32, usize), Vec<String>>,
+    /// code that the lowering puts in front of an instruction behind all before-injections
+    /// (block-exit bodies in front of the matching else / end)
+    pub inj_late: BTreeMap<(u32, usize), Vec<String>>,
     pub declared: BTreeSet<u32>,
     /// functions named by `ref.func` in added or injected code
     pub needs_declared: BTreeSet<u32>,
@@ -211,6 +214,7 @@ impl World {
             model: din.clone(),
             inj: BTreeMap::new(),
             inj_after: BTreeMap::new(),
+            inj_late: BTreeMap::new(),
             declared: BTreeSet::new(),
             needs_declared: BTreeSet::new(),
             name_dontcare: BTreeSet::new(),
@@ -269,7 +273,7 @@ impl World {
         if self.needs_declared.is_empty() {
             return false;
         }
-        let mut probe = World { f: vec![], g: vec![], m: vec![], imports: vec![], model: self.model.clone(), inj: BTreeMap::new(), inj_after: BTreeMap::new(), declared: BTreeSet::new(), needs_declared: BTreeSet::new(), name_dontcare: BTreeSet::new(), imports_changed: false, counter: 0, log: vec![], types: vec![], type_dbg: vec![] };
+        let mut probe = World { f: vec![], g: vec![], m: vec![], imports: vec![], model: self.model.clone(), inj: BTreeMap::new(), inj_after: BTreeMap::new(), inj_late: BTreeMap::new(), declared: BTreeSet::new(), needs_declared: BTreeSet::new(), name_dontcare: BTreeSet::new(), imports_changed: false, counter: 0, log: vec![], types: vec![], type_dbg: vec![] };
         if let Some(g) = del_global {
             probe.model.deleted_g.insert(g);
         }
@@ -374,7 +378,7 @@ impl World {
                 scan(op);
             }
         }
-        for ((fi, _), ops) in self.inj.iter().chain(self.inj_after.iter()) {
+        for ((fi, _), ops) in self.inj.iter().chain(self.inj_after.iter()).chain(self.inj_late.iter()) {
             if self.model.deleted_f.contains(fi) {
                 continue;
             }
@@ -391,9 +395,12 @@ impl World {
     /// the expected module: model with injections spliced in
     pub fn materialise(&self) -> dm::Dec {
         let mut d = self.model.clone();
-        let mut per: BTreeMap<u32, (BTreeMap<usize, &Vec<String>>, BTreeMap<usize, &Vec<String>>)> = BTreeMap::new();
+        let mut per: BTreeMap<u32, (BTreeMap<usize, Vec<String>>, BTreeMap<usize, &Vec<String>>)> = BTreeMap::new();
         for ((fi, ii), ops) in &self.inj {
-            per.entry(*fi).or_default().0.insert(*ii, ops);
+            per.entry(*fi).or_default().0.entry(*ii).or_default().extend(ops.iter().cloned());
+        }
+        for ((fi, ii), ops) in &self.inj_late {
+            per.entry(*fi).or_default().0.entry(*ii).or_default().extend(ops.iter().cloned());
         }
         for ((fi, ii), ops) in &self.inj_after {
             per.entry(*fi).or_default().1.insert(*ii, ops);
@@ -1204,6 +1211,7 @@ impl EditDriver {
                 d.locals.clear();
                 w.inj.retain(|(fi, _), _| *fi != id);
                 w.inj_after.retain(|(fi, _), _| *fi != id);
+                w.inj_late.retain(|(fi, _), _| *fi != id);
                 // names of the locals of a removed body are not expected to survive
                 w.model.names.locals.retain(|(f, _), _| *f != id);
                 w.model.names.labels.retain(|(f, _), _| *f != id);
@@ -1319,7 +1327,10 @@ impl EditDriver {
                 // block-entry probe on a construct (the special modes are lowered at encode; the
                 // IDs in their code must be re-indexed like everything else)
                 let opener_sites: Vec<usize> = (lo..nops).filter(|i| matches!(w.model.funcs[fid as usize].ops.get(*i).map(|o| dm::op_name(o)), Some("Block" | "Loop" | "If")) && !w.inj_after.contains_key(&(fid, *i))).collect();
-                let mut how = *c.t.pick(&["before", "before", "after", "func_entry", "block_entry"]);
+                let mut how = *c.t.pick(&["before", "before", "after", "func_entry", "block_entry", "block_exit"]);
+                if how == "block_exit" && opener_sites.is_empty() {
+                    how = "before";
+                }
                 if how == "block_entry" && opener_sites.is_empty() {
                     how = "before";
                 }
@@ -1327,7 +1338,7 @@ impl EditDriver {
                     how = "before";
                 }
                 let at = match how {
-                    "block_entry" => *c.t.pick(&opener_sites),
+                    "block_entry" | "block_exit" => *c.t.pick(&opener_sites),
                     "func_entry" => 0,
                     _ => at,
                 };
@@ -1344,6 +1355,7 @@ impl EditDriver {
                                     match how {
                                         "after" => it.after(),
                                         "block_entry" => it.block_entry(),
+                                        "block_exit" => it.block_exit(),
                                         _ => it.before(),
                                     };
                                     for o in ops2 {
@@ -1366,6 +1378,9 @@ impl EditDriver {
                             "block_entry" => {
                                 fm.block_entry_at(loc);
                             }
+                            "block_exit" => {
+                                fm.block_exit_at(loc);
+                            }
                             "func_entry" => {
                                 fm.func_entry();
                             }
@@ -1381,6 +1396,12 @@ impl EditDriver {
                 })
                 .map_err(|p| lib_reject("inject", &p))?;
                 match how {
+                    "block_exit" => {
+                        // lowered in front of the matching end (an if: in front of its else, if any)
+                        let st = super::instr::structure(&w.model.funcs[fid as usize].ops);
+                        let site = st.else_of.get(&at).copied().unwrap_or_else(|| st.end_of[&at]);
+                        w.inj_late.entry((fid, site)).or_default().extend(dbg_ops(&ops));
+                    }
                     "after" | "block_entry" => w.inj_after.entry((fid, at)).or_default().extend(dbg_ops(&ops)),
                     _ => w.inj.entry((fid, at)).or_default().extend(dbg_ops(&ops)),
                 }
